@@ -157,7 +157,7 @@ def _do_vmx(case):
     if not blocks:
         lines += extra
     text = "\n".join(lines) + "\n"
-    got = VMX.parse(text).disks()
+    got = _twice(VMX.parse(text).disks)
     exp = _vmx_expected([tuple(d) for d in devs])
     return got, exp, len(devs) > 1 or any(d[3] not in DISK_TYPES for d in devs)
 
@@ -182,6 +182,17 @@ def _do_vmx_dict(case):
     return got, exp, form != 3
 
 
+def _twice(fn):
+    """disks() peeked at, then enumerated twice on the same object: the answer may not depend on earlier calls."""
+    it = iter(fn())
+    next(it, None)
+    a = list(fn())
+    b = list(fn())
+    if a != b:
+        return ["<second enumeration differs>", a, b]
+    return a
+
+
 # ---- OVF ---------------------------------------------------------------------------------------------------------------
 NS_OVF = "http://schemas.dmtf.org/ovf/envelope/1"
 NS_RASD = "http://schemas.dmtf.org/wbem/wscim/1/cim-schema/2/CIM_ResourceAllocationSettingData"
@@ -201,7 +212,10 @@ def _ovf_cases(max_files):
                         for ns in range(3):
                             if ni >= 2 and (j + ns) % 3:
                                 continue
-                            yield {"kind": "ovf", "files": nf, "disks": list(refs), "items": [list(i) for i in items], "ns": ns}
+                            # id naming: distinct name spaces (file0 / vmdisk0) or one shared numbering ("1", "2", ...)
+                            for ids in ((0, 1) if (ni and nd) else (0,)):
+                                yield {"kind": "ovf", "files": nf, "disks": list(refs), "items": [list(i) for i in items],
+                                       "ns": ns, "ids": ids}
 
 
 def _do_ovf(case):
@@ -218,18 +232,22 @@ def _do_ovf(case):
         root_ns = f'xmlns:o="{NS_OVF}" xmlns:r="{NS_RASD}"'
         e, a, r = "o:", "o:", "r:"
     files = [f"disk{i}-ä.vmdk" for i in range(nf)]
+    shared = case.get("ids", 0) == 1
+    fid = (lambda i: str(i + 1)) if shared else (lambda i: f"file{i}")
+    # with shared numbering disk k is called like file (k+1) mod n: a reader that mixes the two id spaces picks the wrong file
+    did = (lambda i: str((i + 1) % max(nf, 1) + 1)) if shared else (lambda i: f"vmdisk{i}")
     x = ['<?xml version="1.0"?>', f"<{e}Envelope {root_ns}>", f" <{e}References>"]
     for i in range(nf):
-        x.append(f'  <{e}File {a}id="file{i}" {a}href="{files[i]}"/>')
+        x.append(f'  <{e}File {a}id="{fid(i)}" {a}href="{files[i]}"/>')
     x += [f" </{e}References>", f" <{e}DiskSection>", f"  <{e}Info>disks</{e}Info>"]
     for i, ref in enumerate(refs):
-        x.append(f'  <{e}Disk {a}capacity="1024" {a}diskId="vmdisk{i}" {a}fileRef="file{ref}"/>')
+        x.append(f'  <{e}Disk {a}capacity="1024" {a}diskId="{did(i)}" {a}fileRef="{fid(ref)}"/>')
     x += [f" </{e}DiskSection>", f' <{e}VirtualSystem {a}id="vm">', f"  <{e}VirtualHardwareSection>"]
     targets = [("disk", i) for i in range(len(refs))] + [("file", i) for i in range(nf)]
     exp = []
     for n, (rt, ti, form) in enumerate(items):
         tk, tidx = targets[ti]
-        path = f"/disk/vmdisk{tidx}" if tk == "disk" else f"/file/file{tidx}"
+        path = f"/disk/{did(tidx)}" if tk == "disk" else f"/file/{fid(tidx)}"
         if form in (0, 1):
             path = "ovf:" + path
         x += [f"   <{e}Item>", f"    <{r}ElementName>dev{n}</{r}ElementName>", f"    <{r}HostResource>{path}</{r}HostResource>",
@@ -237,7 +255,10 @@ def _do_ovf(case):
         if rt == 17:
             exp.append(files[refs[tidx]] if tk == "disk" else files[tidx])
     x += [f"  </{e}VirtualHardwareSection>", f" </{e}VirtualSystem>", f"</{e}Envelope>"]
-    got = list(OVF(io.StringIO("\n".join(x))).disks())
+    o = OVF(io.StringIO("\n".join(x)))
+    if shared and len({did(i) for i in range(len(refs))}) < len(refs):
+        return exp, exp, False  # two disks with the same id: not a well-formed graph
+    got = _twice(o.disks)
     return got, exp, len(items) > 1 or any(i[0] != 17 for i in items)
 
 
@@ -289,7 +310,7 @@ def _do_vbox(case):
     x += ["  </MediaRegistry>", "  <StorageControllers>", '   <StorageController name="SATA" type="AHCI">',
           '    <AttachedDevice type="HardDisk" port="0" device="0"><Image uuid="{00000000-0000-0000-0000-000000000000}"/></AttachedDevice>',
           "   </StorageController>", "  </StorageControllers>", " </Machine>", "</VirtualBox>"]
-    got = list(VBox(io.StringIO("\n".join(x))).disks())
+    got = _twice(VBox(io.StringIO("\n".join(x))).disks)
     # document order = pre-order of the registry
     order = []
 
@@ -331,5 +352,5 @@ def _do_pvs(case):
         if d == "Hdd":
             exp.append(name)
     x += [" </Hardware>", "</ParallelsVirtualMachine>"]
-    got = list(PVS(io.StringIO("\n".join(x))).disks())
+    got = _twice(PVS(io.StringIO("\n".join(x))).disks)
     return got, exp, len(case["devs"]) > 1
